@@ -28,7 +28,10 @@ Nests == {"direct", "elem", "mapkey", "mapval", "alias", "nested",
           \* two levels: a user type holding a map / list whose keys / elements carry the rule, and a list / map of user types
           "nested_mapkey", "nested_elem", "elem_nested", "mapval_nested",
           \* a map whose key type is a user type (alias) that appears nowhere else
-          "mapkey_alias"}
+          "mapkey_alias",
+          \* the payload / result IS the value (Payload(Int), Payload(ArrayOf(String)), Result(MapOf(String, Int)) ...)
+          "whole", "whole_elem", "whole_mapval"}
+Whole == {"whole", "whole_elem", "whole_mapval"}
 Deep == {"nested_mapkey", "nested_elem", "elem_nested", "mapval_nested", "mapkey_alias"}
 StrShapes == {"plain", "slash", "pcthex", "space", "uni", "plus"}
 
@@ -41,21 +44,23 @@ Attr(k, l, m, r, ns) == [kind |-> k, loc |-> l, mode |-> m, rule |-> r, nest |->
 NumKinds == {"int", "uint", "float"} \cup WideKinds
 FloatKinds == {"float", "float32"}
 WFAttr(a) ==
-  /\ (a.loc = "path" => a.mode = "required" /\ a.kind \in {"int", "uint", "float", "bool", "string"} \cup WideKinds /\ a.nest \in {"direct", "alias"})
-  /\ (a.kind \in WideKinds => a.nest \in {"direct", "alias", "elem", "mapval"} /\ a.rule \in {"none", "min", "xmax"})
+  /\ (a.loc = "path" => a.mode = "required" /\ a.kind \in {"int", "uint", "float", "bool", "string"} \cup WideKinds /\ a.nest \in {"direct", "alias", "whole"})
+  /\ (a.kind \in WideKinds => a.nest \in {"direct", "alias", "elem", "mapval", "whole"} /\ a.rule \in {"none", "min", "xmax"})
   /\ (a.loc = "cookie" => a.nest \in {"direct", "alias"} /\ a.kind # "bytes")
-  /\ (a.loc \in {"query", "header"} => a.nest \in {"direct", "alias", "elem"} /\ a.kind # "bytes")
+  /\ (a.loc \in {"query", "header"} => a.nest \in {"direct", "alias", "elem", "whole", "whole_elem"} /\ a.kind # "bytes")
   /\ (a.nest \in {"mapkey", "mapval", "nested"} \cup Deep => a.loc = "body")
   /\ (a.nest \in {"mapkey", "nested_mapkey", "mapkey_alias"} => a.kind \in {"string", "int"})
-  /\ (a.kind = "bytes" => a.nest = "direct" /\ a.rule \in {"none", "minlen", "maxlen", "lenrange"})
+  /\ (a.kind = "bytes" => a.nest \in {"direct", "whole"} /\ (a.nest = "whole" => a.loc = "body") /\ a.rule \in {"none", "minlen", "maxlen", "lenrange"})
   /\ (a.kind = "bool" => a.rule = "none")
   /\ (a.kind = "any" => a.loc = "body" /\ a.nest \in {"direct", "elem", "mapval", "nested"} /\ a.rule = "none" /\ a.mode # "default")
   /\ (a.rule \in {"min", "max", "xmin", "xmax", "range", "xrange"} => a.kind \in NumKinds)
   /\ (a.rule \in {"minlen", "maxlen", "lenrange"} => a.kind \in {"string", "bytes"})
   /\ (a.rule \in {"pattern", "format"} => a.kind = "string")
   /\ (a.rule = "enum" => a.kind \in {"int", "string"})
-  /\ (a.rule \in {"cminlen", "cmaxlen"} => a.nest \in {"elem", "mapval"})
+  /\ (a.rule \in {"cminlen", "cmaxlen"} => a.nest \in {"elem", "mapval", "whole_elem", "whole_mapval"})
   /\ (a.mode = "default" => a.nest \in {"direct", "alias"} /\ a.kind # "bytes")
+  /\ (a.nest \in Whole => a.mode = "required" /\ a.kind \notin {"any"} /\ a.loc \in {"body", "query", "header", "path"})
+  /\ (a.nest \in {"whole_elem", "whole_mapval"} /\ a.loc # "body" => a.nest = "whole_elem" /\ a.loc \in {"query", "header"})
   \* a required non-pointer field cannot be told from its zero value on the Go side; nothing to exclude,
   \* the value space below only offers "absent" where Go can express it
 AttrSpace == {a \in [kind: AllKinds, loc: Locs, mode: Modes, rule: Rules, nest: Nests] : WFAttr(a)}
@@ -90,7 +95,7 @@ ShapeFits(v) == v.cls # "string" \/ ((v.s \in {"pcthex", "space"} => v.n >= 3) /
 \* values an attribute can take: the leaf values, with a container size where the leaf is nested
 ValsOf(a) ==
   LET leaf == {v \in LeafVals(a.kind) : ShapeFits(v)} IN
-  IF a.nest \in {"direct", "alias", "nested"} THEN leaf
+  IF a.nest \in {"direct", "alias", "nested", "whole"} THEN leaf
   ELSE IF a.nest \in Deep THEN {[v EXCEPT !.cn = c] : v \in leaf, c \in (IF a.nest \in {"nested_mapkey", "mapkey_alias"} THEN {1} ELSE {1, 2})}
   ELSE IF a.rule \in {"cminlen", "cmaxlen"}
        THEN {[v EXCEPT !.cn = c] : v \in {w \in leaf : w.n = 3 /\ w.s = "plain"} \cup {w \in leaf : w.cls = "bool"}, c \in {0, Lo - 1, Lo, Hi, Hi + 1}}
@@ -99,7 +104,7 @@ ValsOf(a) ==
 \* can the caller leave the attribute unset?  (Go: pointer field, nil slice or nil map)
 CanBeAbsent(a) == a.mode = "optional" \/ (a.mode = "required" /\ a.nest \in {"elem", "mapkey", "mapval", "nested"} \cup Deep) \/ (a.mode = "required" /\ a.kind = "bytes")
 \* an empty string cannot be a path segment: the envelope does not send one
-PayloadVals(a) == {v \in ValsOf(a) : ~(a.loc = "path" /\ v.s = "empty")} \cup (IF CanBeAbsent(a) THEN {Absent} ELSE {})
+PayloadVals(a) == {v \in ValsOf(a) : ~(a.loc = "path" /\ v.s = "empty")} \cup (IF CanBeAbsent(a) /\ a.nest \notin Whole THEN {Absent} ELSE {})
 
 DefaultOf(a) == CASE a.kind = "int" -> V("int", 3, "plain", 1)
                   [] a.kind = "uint" -> V("uint", 3, "plain", 1)
@@ -142,7 +147,7 @@ RuleErr(a) ==
 
 \* does a value satisfy the attribute?  Constraints apply to present values; required means present.
 \* A container with no entries has no leaf to check (cn = 0).
-LeafChecked(a, v) == a.rule \in {"cminlen", "cmaxlen"} \/ a.nest \in {"direct", "alias", "nested"} \/ v.cn >= 1
+LeafChecked(a, v) == a.rule \in {"cminlen", "cmaxlen"} \/ a.nest \in {"direct", "alias", "nested", "whole"} \/ v.cn >= 1
 ValidAttr(a, v) == IF v = Absent THEN a.mode # "required" ELSE (LeafChecked(a, v) => RuleOK(a, v))
 ViolationOf(a, v) == IF v = Absent THEN "missing_field" ELSE RuleErr(a)
 =============================================================================
